@@ -154,3 +154,25 @@ def run(cr: CheckRun) -> None:
     cr.cov["evaluations"] += nev
     cr.cov.setdefault("campaigns", []).append({"name": "call-tracer", "traces": ntr, "events": nev, "rejected_steps": len(bad)})
     cr.mark("call-tracer")
+
+
+def selftest(seed: int) -> int:
+    """binding demonstration: a pristine recorded trace is accepted; swapped events of an IR step, a changed depth and a dropped
+    step are rejected"""
+    import json
+    items = random_streams(random.Random(seed + 3), 40) + [[["Call"], ["Ir"], ["Hw"], ["Ret", "RETI"], ["Ret", "RETI"], ["Ret", "RET"]]]
+    ev, _ = _drive(0, items, None)
+    ok = True
+    if vlib.tlc_judge_trace("C07", SD, "TraceCallTrace", "TraceCallTrace.cfg", ev, "cself0"):
+        print("selftest calltrace: pristine trace rejected"); ok = False
+    bad = json.loads(json.dumps(ev))
+    k = [i for i, e in enumerate(bad) if e.get("k") == "Ir"][0]
+    bad[k]["out"] = bad[k]["out"][::-1]
+    if not any(b["line"] == k + 1 and b["clause"] == "Events" for b in vlib.tlc_judge_trace("C07", SD, "TraceCallTrace", "TraceCallTrace.cfg", bad, "cself1")):
+        print("selftest calltrace: swapped events accepted"); ok = False
+    k = [i for i, e in enumerate(ev) if e.get("k") == "Call"][0]
+    dropped = ev[:k] + ev[k + 1:]
+    if not vlib.tlc_judge_trace("C07", SD, "TraceCallTrace", "TraceCallTrace.cfg", dropped, "cself2"):
+        print("selftest calltrace: trace with a dropped Call accepted"); ok = False
+    print("selftest calltrace:", "ok" if ok else "FAILED")
+    return 0 if ok else 2
